@@ -180,7 +180,144 @@ def structure_rules(ctx):
 _c19_census = c19
 
 
+def fresh_state(ctx):
+    """C19.R6: what a pass remembers during a walk does not survive into the next Linter::run"""
+    F, rep = ctx.F, ctx.rep
+    from .c06 import type_closure
+    from ..core import place_fields
+    rep.rule("C19.R6", "fresh state per run: every field of a lint pass (or of what it contains) that is written while walking a program is "
+             "re-initialised by a Pass method that Linter::run calls on that pass before visit_program, on every path (whole-value "
+             "overwrite from the constructor, or a write of each such field); otherwise the second program linted with one Linter "
+             "is judged against what the first one left behind (Linter::run takes &mut self and is public)")
+    run = F.fn("linter::Linter::run")
+    if run is None:
+        rep.fail("C19.R6", "anchor::Linter::run", "Linter::run not found")
+        return
+    rep.analysed(run)
+    pass_impls = [im for im in F.impls if im.get("trait") == "linter::Pass"]
+    # calls of Pass methods that dominate the visit_program call, per body of Linter::run
+    pre_methods = set()
+    n_vp = 0
+    for body in F.with_closures(run):
+        vps = [(bi, t) for bi, t in body.calls() if t["callee"].get("name") == "visit_program"]
+        for vb, vt in vps:
+            n_vp += 1
+            for bi, t in body.calls():
+                c = t["callee"]
+                if bi != vb and body.dominates(bi, vb) and (c.get("trait") == "linter::Pass" or (c.get("def") or "").startswith("linter::Pass::")):
+                    r1 = {d for d, p in origins(body, t["args"][0])}
+                    r2 = {d for d, p in origins(body, vt["args"][0])}
+                    if r1 == r2:
+                        pre_methods.add(c.get("name"))
+    rep.floor("C19.R6.run", n_vp, 1, "visit_program calls in Linter::run")
+    n = 0
+    for im in pass_impls:
+        ty = F.ty(im["self_ty"])
+        adts = {t.adt() for t in type_closure(F, ty).values() if t.kind() == "adt" and t.adt() in F.adts}
+        state = set()
+        for fn in F.all_bodies(tests=False):
+            if fn.is_derived():
+                continue
+            for bi, si, st in fn.assigns():
+                pf = place_fields(st["pl"])
+                if pf and pf[-1][0] in adts:
+                    state.add((pf[-1][0], pf[-1][1]))
+                rv = st["rv"]
+                if "ref" in rv and rv.get("mut"):
+                    pf = place_fields(rv["ref"])
+                    if pf and pf[-1][0] in adts:
+                        fty = F.ty(_field_ty(F, pf[-1][0], pf[-1][1]))
+                        # a mutable borrow of a container (a local struct, a type parameter) is not a write of its own
+                        if not (fty.kind() == "param" or (fty.kind() == "adt" and fty.adt() in F.adts)):
+                            state.add((pf[-1][0], pf[-1][1]))
+        methods = {m["name"]: m["def"] for m in im["methods"]}
+        resets = [F.fn(methods[m]) for m in sorted(pre_methods) if m in methods and F.fn(methods[m]) is not None]
+        covered = set()
+        whole = False
+        for rf in resets:
+            rep.analysed(rf)
+            for bi, si, st in rf.assigns():
+                pl = st["pl"]
+                if pl["l"] == 1 and pl["p"] == ["deref"] and all(rf.dominates(bi, r) or bi == r for r in rf.return_blocks()):
+                    whole = True
+                pf = place_fields(pl)
+                if pf and pf[-1][0] in adts and all(rf.dominates(bi, r) or bi == r for r in rf.return_blocks()):
+                    covered.add((pf[-1][0], pf[-1][1]))
+            for bi, t in rf.calls():
+                d = t["dest"]
+                if d["l"] == 1 and d["p"] == ["deref"] and all(rf.dominates(bi, r) for r in rf.return_blocks()):
+                    whole = True
+        short = ty.s.replace("analysis::visit::", "").replace("linter::passes::", "")
+        if not state:
+            n += 1
+            rep.ob("C19.R6", "stateless::%s" % short, True, "", "%s:%s" % (im["file"], im["lo"]), how="no field of the pass is written during a walk")
+        for adt, f in sorted(state):
+            n += 1
+            if not whole and (adt, f) not in covered and _restored(F, adt, f):
+                rep.ob("C19.R6", "state-survives::%s.%s" % (adt, f), True, "", "%s:%s" % (im["file"], im["lo"]),
+                       how="every function that writes it leaves it at the constant the constructor gives it")
+                continue
+            ok = whole or (adt, f) in covered
+            rep.ob("C19.R6", "state-survives::%s.%s" % (adt, f), ok,
+                   "" if ok else "%s.%s is written while a program is walked and nothing re-initialises it before the next walk: Linter::run calls %s on the pass before visit_program, and %s has %s" % (
+                       adt.rsplit("::", 1)[-1], f, sorted(pre_methods) or "no Pass method", short, "no such method of its own" if not resets else "a method that does not overwrite it on every path"),
+                   "%s:%s" % (im["file"], im["lo"]), how="re-initialised by %s before every walk" % (sorted(pre_methods),))
+    rep.floor("C19.R6", n, 2, "lint passes")
+
+
+def _restored(F, adt, field):
+    """every writer leaves the field, on every path to its return, at the constant the constructors give it"""
+    from ..core import place_fields
+    idx = None
+    for v in F.adts[adt]["variants"]:
+        for i, f in enumerate(v["fields"]):
+            if f["name"] == field:
+                idx = i
+    init = set()
+    for fn, bi, st in common.aggregates_of(F, adt):
+        ops = st["rv"]["ops"]
+        if idx is None or idx >= len(ops) or "const" not in ops[idx]:
+            return False
+        cst = ops[idx]["const"]
+        init.add(str(cst.get("v", cst.get("int", cst))))
+    if len(init) != 1:
+        return False
+    for fn in F.all_bodies(tests=False):
+        if fn.is_derived():
+            continue
+        ws = []
+        for bi, si, st in fn.assigns():
+            pf = place_fields(st["pl"])
+            if pf and pf[-1][0] == adt and pf[-1][1] == field:
+                ws.append((bi, si, st))
+        if not ws:
+            continue
+        wblocks = {bi for bi, _, _ in ws}
+        for bi, si, st in ws:
+            # an exit write: a return is reachable without passing another write of the field (later in the block or in another block)
+            later_same = any(b2 == bi and s2 > si for b2, s2, _ in ws)
+            if later_same:
+                continue
+            reach = fn.reachable_from_succs(bi, avoid=wblocks - {bi})
+            if not (set(fn.return_blocks()) & reach) and bi not in fn.return_blocks():
+                continue
+            use = st["rv"].get("use")
+            cst = use.get("const") if isinstance(use, dict) else None
+            if cst is None or str(cst.get("v", cst.get("int", cst))) not in init:
+                return False
+    return True
+
+
+def _field_ty(F, adt, field):
+    for v in F.adts[adt]["variants"]:
+        for f in v["fields"]:
+            if f["name"] == field:
+                return f["ty"]
+    return 0
+
+
 @prop("C19")
 def c19_full(ctx):
     _c19_census(ctx)
     structure_rules(ctx)
+    fresh_state(ctx)
